@@ -432,7 +432,7 @@ func run(c Case) (v vkit.Verdict) {
 		if res[k].i != r.I {
 			return v.Fail("record %d: integer attribute %d comes back as %d", k, r.I, res[k].i)
 		}
-		if math.Abs(res[k].f-r.F) > 5.1e-11+1e-15*math.Abs(r.F) {
+		if vkit.Off(res[k].f-r.F, 5.1e-11+1e-15*math.Abs(r.F)) {
 			return v.Fail("record %d: float attribute %.17g comes back as %.17g", k, r.F, res[k].f)
 		}
 		if res[k].s != r.S {
